@@ -154,6 +154,9 @@ var c18 = gen.Register(&gen.Check[caseC18]{
 		nbad := 0
 		if gen.Chance(t, "hasBad", 1, 2) {
 			nbad = rapid.IntRange(1, 4).Draw(t, "nbad")
+			if gen.Chance(t, "longRun", 1, 40) {
+				nbad = rapid.SampledFrom([]int{128, 127, 129, 255, 256, 64, 1000}).Draw(t, "longBad") // a bounded retry loop gives up somewhere
+			}
 		}
 		for i := 0; i < nbad; i++ {
 			if rapid.Bool().Draw(t, "zeroOrN") {
@@ -212,6 +215,7 @@ var c18 = gen.Register(&gen.Check[caseC18]{
 			{Blocks: []string{h(max)}, Tail: tail, Chunks: []int{7}, Fault: 31, Style: "eagain", Prior: p},
 			{Blocks: []string{h(max)}, Tail: tail, Chunks: []int{7}, Fault: 14, Style: "timeout", Prior: p},
 			{Blocks: []string{h(max)}, Tail: tail, Chunks: []int{7}, Fault: 0, Style: "eintr", Prior: p},
+			{Blocks: append(repeatBlocks(h(ref.N), h(new(big.Int)), 300), h(big.NewInt(7))), Tail: tail, Chunks: []int{32}, Fault: -1, Prior: p},
 		}
 	},
 	Required: []string{"block>=n", "retry:zero", "retry:n", "fault:before", "fault:after", "chunked"},
@@ -248,6 +252,7 @@ var c18 = gen.Register(&gen.Check[caseC18]{
 			chunked = chunked || ch < 32
 		}
 		o.ClassIf(chunked, "chunked")
+		o.ClassIf(len(c.Blocks) > 64, "long-rejected-run")
 		o.NonTrivialIf(len(c.Blocks) > 1 || c.Fault >= 0 || gen.B(c.Blocks[0]).Cmp(ref.N) >= 0)
 
 		rd := &scriptedReader{stream: stream, chunks: c.Chunks, fault: c.Fault, style: c.Style}
@@ -294,3 +299,15 @@ var c18 = gen.Register(&gen.Check[caseC18]{
 })
 
 func TestC18Random(t *testing.T) { c18.Execute(t) }
+
+func repeatBlocks(a, b string, n int) []string {
+	out := make([]string, 0, n)
+	for i := 0; i < n; i++ {
+		if i%2 == 0 {
+			out = append(out, a)
+		} else {
+			out = append(out, b)
+		}
+	}
+	return out
+}
